@@ -98,7 +98,7 @@ WriteRef(r, g, k, v) ==
 (*   s   plain scalar                 da  scalar anchored &a               *)
 (*   ua  alias *a    ub  alias *b     rec &r [*r]                          *)
 (*   te  scalar tagged !e!str         tb  scalar tagged !!str              *)
-(*   SE  scanner error here           PE  parser error here                *)
+(*   SE  scanner error here           PE  parser error here (a stray "]")  *)
 (*   KE  constructor error here (unhashable key)                           *)
 (*   py  !!python/... node (constructible by the unsafe loaders only)      *)
 (*   dk  node built with deep=True whose construction fails inside         *)
@@ -133,21 +133,27 @@ UserItems == {"cu", "cg", "cm"}
 (*   rec a list that contains itself  ve  an object whose tag starts with  *)
 (*   the prefix of handle !e!         RE  an object that has no representer*)
 (*   ru  object of a user representer rm  object of a user multi-repr.     *)
+(*   nu  a string with a non-ASCII character                               *)
+(*   S   (alone) the value is a plain string, not a list                   *)
 (* `tags`: the call / the document declares  %TAG !e! <prefix>             *)
-(* `ver` : ... declares %YAML 1.1                                          *)
+(* `ver` : ... declares %YAML 1.1      `au`: the call passes allow_unicode *)
 (***************************************************************************)
 Val(n) ==
-  CASE n = "plainv"   -> [tags |-> FALSE, ver |-> FALSE, items |-> <<"s", "s">>]
-    [] n = "shared"   -> [tags |-> FALSE, ver |-> FALSE, items |-> <<"x1", "x1">>]
-    [] n = "shared2"  -> [tags |-> FALSE, ver |-> FALSE, items |-> <<"x1", "x2", "x2", "x1">>]
-    [] n = "recv"     -> [tags |-> FALSE, ver |-> FALSE, items |-> <<"rec", "s">>]
-    [] n = "reprerr"  -> [tags |-> FALSE, ver |-> FALSE, items |-> <<"x1", "x1", "RE">>]
-    [] n = "tagged"   -> [tags |-> TRUE,  ver |-> FALSE, items |-> <<"ve">>]
-    [] n = "usesve"   -> [tags |-> FALSE, ver |-> FALSE, items |-> <<"ve", "s">>]
-    [] n = "verv"     -> [tags |-> FALSE, ver |-> TRUE,  items |-> <<"s">>]
-    [] n = "urepr"    -> [tags |-> FALSE, ver |-> FALSE, items |-> <<"ru", "s">>]
-    [] n = "umrepr"   -> [tags |-> FALSE, ver |-> FALSE, items |-> <<"x1", "rm", "x1">>]
-AllVals == {"plainv", "shared", "shared2", "recv", "reprerr", "tagged", "usesve", "verv", "urepr", "umrepr"}
+  CASE n = "plainv"   -> [tags |-> FALSE, ver |-> FALSE, au |-> FALSE, items |-> <<"s", "s">>]
+    [] n = "shared"   -> [tags |-> FALSE, ver |-> FALSE, au |-> FALSE, items |-> <<"x1", "x1">>]
+    [] n = "shared2"  -> [tags |-> FALSE, ver |-> FALSE, au |-> FALSE, items |-> <<"x1", "x2", "x2", "x1">>]
+    [] n = "recv"     -> [tags |-> FALSE, ver |-> FALSE, au |-> FALSE, items |-> <<"rec", "s">>]
+    [] n = "reprerr"  -> [tags |-> FALSE, ver |-> FALSE, au |-> FALSE, items |-> <<"x1", "x1", "RE">>]
+    [] n = "tagged"   -> [tags |-> TRUE,  ver |-> FALSE, au |-> FALSE, items |-> <<"ve">>]
+    [] n = "usesve"   -> [tags |-> FALSE, ver |-> FALSE, au |-> FALSE, items |-> <<"ve", "s">>]
+    [] n = "verv"     -> [tags |-> FALSE, ver |-> TRUE,  au |-> FALSE, items |-> <<"s">>]
+    [] n = "urepr"    -> [tags |-> FALSE, ver |-> FALSE, au |-> FALSE, items |-> <<"ru", "s">>]
+    [] n = "umrepr"   -> [tags |-> FALSE, ver |-> FALSE, au |-> FALSE, items |-> <<"x1", "rm", "x1">>]
+    [] n = "uni"      -> [tags |-> FALSE, ver |-> FALSE, au |-> FALSE, items |-> <<"nu", "s">>]
+    [] n = "uniau"    -> [tags |-> FALSE, ver |-> FALSE, au |-> TRUE,  items |-> <<"nu", "s">>]
+    [] n = "scalarv"  -> [tags |-> FALSE, ver |-> FALSE, au |-> FALSE, items |-> <<"S">>]     \* the root IS a plain scalar
+AllVals == {"plainv", "shared", "shared2", "recv", "reprerr", "tagged", "usesve", "verv", "urepr", "umrepr", "uni", "uniau", "scalarv"}
+ASSUME Docs \subseteq AllDocs /\ Vals \subseteq AllVals
 UserValItems == {"ru", "rm"}
 
 Level(op) == CASE op = "scan" -> 1 [] op = "parse" -> 2 [] op \in {"compose", "compose_all"} -> 3
@@ -241,9 +247,10 @@ LStep(o, g, inj) ==
                o1 == [o EXCEPT !.d = @ + 1, !.i = 0, !.consumed = @ + 1, !.pc = "item"]
            IN  IF lvl = 1 THEN same(Deliver(o1, <<"DIRS", doc.yaml, doc.tag, explicit>>))
                ELSE LET r == IF explicit THEN ProcessDirectives(o1, g, doc) ELSE ImplicitDocumentStart(o1, g)
-                    IN  IF lvl = 2 THEN [o |-> Deliver(r.o, r.ev), g |-> r.g] ELSE [o |-> r.o, g |-> r.g]
+                    IN  IF lvl = 2 THEN [o |-> [Deliver(r.o, r.ev) EXCEPT !.pc = "seqstart"], g |-> r.g] ELSE [o |-> r.o, g |-> r.g]
+    [] o.pc = "seqstart" -> same([Deliver(o, <<"SEQSTART">>) EXCEPT !.pc = "item"])     \* the root collection of the document (parse only)
     [] o.pc = "item" ->
-         IF o.i = Len(CurDoc(o).items) THEN same([o EXCEPT !.pc = "docend"])
+         IF o.i = Len(CurDoc(o).items) THEN same(IF lvl = 2 THEN [Deliver(o, <<"SEQEND">>) EXCEPT !.pc = "docend"] ELSE [o EXCEPT !.pc = "docend"])
          ELSE IF NeedsRead(o) THEN same(ReadChunk(o, inj))
          ELSE
            LET it == CurDoc(o).items[o.i + 1]
@@ -302,7 +309,8 @@ LActionName(o) ==
     [] o.pc = "docstart" /\ o.d < Len(o.src.docs) /\ ~(IsSingle(o.op) /\ o.d >= 1) /\ Level(o.op) > 1 ->
           LET doc == Doc(o.src.docs[o.d + 1]) IN
           IF doc.yaml \/ doc.tag \/ ~(o.d = 0 /\ o.src.impl) THEN "ProcessDirectives" ELSE "ImplicitDocumentStart"
-    [] o.pc = "docstart" -> "DocumentBoundary"
+    [] o.pc \in {"docstart", "seqstart"} -> "DocumentBoundary"
+    [] o.pc = "item" /\ o.i = Len(CurDoc(o).items) -> "DocumentBoundary"
     [] o.pc = "item" -> "ParseComposeNode"
     [] o.pc = "docend" -> IF Level(o.op) >= 3 THEN "ComposeDocumentReset" ELSE "DocumentEnd"
     [] o.pc = "construct" -> "ConstructObject"
@@ -321,28 +329,35 @@ NewDumper(op, cls, be, vals, io) ==
     pc |-> "unstarted", ret |-> "-", d |-> 0,
     represented |-> {}, keeper |-> <<>>, aliasKey |-> "none", rnodes |-> <<>>, ri |-> 0,     \* Representer
     closed |-> "none", serialized |-> {}, sanchors |-> EmptyDict, lastAnchorId |-> 0,       \* Serializer
-    pend |-> <<>>, evq |-> <<>>, tp |-> NoRef, wbuf |-> <<>>,                               \* Emitter: events, tag_prefixes
+    pend |-> <<>>, evq |-> <<>>, tp |-> NoRef, wbuf |-> <<>>, au |-> Val(vals[1]).au,       \* Emitter: events, tag_prefixes, allow_unicode
     written |-> <<>>, flushes |-> 0,                                                        \* what the stream received
     out |-> <<>>, end |-> "-", exc |-> "-", yielded |-> FALSE, disposed |-> FALSE, ninv |-> 0, injected |-> 0 ]
 
 Shared(it) == it \in {"x1", "x2", "rec"}
 ObjOf(it) == IF Shared(it) THEN it ELSE "-"
-\* the node list a Representer builds for a value = what serialize() is handed by the caller
-NodesOf(items) == [j \in DOMAIN items |-> [it |-> items[j], obj |-> ObjOf(items[j])]]
+\* Node identity.  The nodes a Representer builds are new objects in every document (key = the document's number); the
+\* nodes a caller hands to serialize() / serialize_all() are the caller's: passing the same value twice passes the same
+\* node objects twice (key = the value's name).
+NodeIdOf(key, obj, j) == <<key, IF obj = "-" THEN ToString(j) ELSE obj>>
+RootId(key) == <<key, "root">>
+NodesOf(key, items) == [j \in DOMAIN items |-> [it |-> items[j], obj |-> ObjOf(items[j]), id |-> NodeIdOf(key, ObjOf(items[j]), j)]]
 DocOpts(o, v) == IF o.op = "emit" THEN [tags |-> v.tags, ver |-> v.ver]
                  ELSE [tags |-> Val(o.vals[1]).tags, ver |-> Val(o.vals[1]).ver]     \* Dumper(tags=..., version=...): per call
 
-\* Serializer.anchor_node (serializer.py:60-73): a node met a second time gets the next id
+\* Serializer.anchor_node (serializer.py:60-73): a node met a second time gets the next id (and is not descended into)
 RECURSIVE AnchorPass(_, _, _, _)
 AnchorPass(nodes, j, anch, lastId) ==
   IF j > Len(nodes) THEN [anch |-> anch, lastId |-> lastId]
-  ELSE LET ob == nodes[j].obj IN
-       IF ob = "-" THEN AnchorPass(nodes, j + 1, anch, lastId)
-       ELSE IF Has(anch, ob) THEN
-              IF anch[ob] = 0 THEN AnchorPass(nodes, j + 1, Put(anch, ob, lastId + 1), lastId + 1)
+  ELSE LET id == nodes[j].id IN
+       IF Has(anch, id) THEN
+              IF anch[id] = 0 THEN AnchorPass(nodes, j + 1, Put(anch, id, lastId + 1), lastId + 1)
               ELSE AnchorPass(nodes, j + 1, anch, lastId)
-       ELSE IF ob = "rec" THEN AnchorPass(nodes, j + 1, Put(anch, ob, lastId + 1), lastId + 1)   \* meets itself inside
-       ELSE AnchorPass(nodes, j + 1, Put(anch, ob, 0), lastId)
+       ELSE IF nodes[j].obj = "rec" THEN AnchorPass(nodes, j + 1, Put(anch, id, lastId + 1), lastId + 1)   \* meets itself inside
+       ELSE AnchorPass(nodes, j + 1, Put(anch, id, 0), lastId)
+AnchorDoc(root, nodes, anch, lastId) ==
+  IF Has(anch, root) THEN (IF anch[root] = 0 THEN [anch |-> Put(anch, root, lastId + 1), lastId |-> lastId + 1]
+                           ELSE [anch |-> anch, lastId |-> lastId])
+  ELSE AnchorPass(nodes, 1, Put(anch, root, 0), lastId)
 
 Ev(k, a, t) == [k |-> k, a |-> a, t |-> t, tags |-> FALSE, ver |-> FALSE]
 \* Serializer.serialize_node (serializer.py:79-110)
@@ -350,21 +365,26 @@ RECURSIVE NodeEvents(_, _, _, _)
 NodeEvents(nodes, j, anch, done) ==
   IF j > Len(nodes) THEN <<>>
   ELSE LET n == nodes[j]
-           a == IF n.obj # "-" /\ Has(anch, n.obj) THEN anch[n.obj] ELSE 0
-       IN  IF n.obj # "-" /\ n.obj \in done THEN <<Ev("AL", a, "-")>> \o NodeEvents(nodes, j + 1, anch, done)
-           ELSE IF n.obj = "rec" THEN <<Ev("SQS", a, "-"), Ev("AL", a, "-"), Ev("SQE", 0, "-")>> \o NodeEvents(nodes, j + 1, anch, done \cup {n.obj})
-           ELSE IF n.obj # "-" THEN <<Ev("SQS", a, "-"), Ev("SC", 0, "s"), Ev("SQE", 0, "-")>> \o NodeEvents(nodes, j + 1, anch, done \cup {n.obj})
-           ELSE <<Ev("SC", 0, n.it)>> \o NodeEvents(nodes, j + 1, anch, done)
-DocEvents(nodes, anch, opts) ==
-  <<[Ev("DS", 0, "-") EXCEPT !.tags = opts.tags, !.ver = opts.ver], Ev("SQS", 0, "-")>>
-     \o NodeEvents(nodes, 1, anch, {}) \o <<Ev("SQE", 0, "-"), Ev("DE", 0, "-")>>
+           a == IF Has(anch, n.id) THEN anch[n.id] ELSE 0
+       IN  IF n.id \in done THEN <<Ev("AL", a, "-")>> \o NodeEvents(nodes, j + 1, anch, done)
+           ELSE IF n.obj = "rec" THEN <<Ev("SQS", a, "-"), Ev("AL", a, "-"), Ev("SQE", 0, "-")>> \o NodeEvents(nodes, j + 1, anch, done \cup {n.id})
+           ELSE IF n.obj # "-" THEN <<Ev("SQS", a, "-"), Ev("SC", 0, "s"), Ev("SQE", 0, "-")>> \o NodeEvents(nodes, j + 1, anch, done \cup {n.id})
+           ELSE <<Ev("SC", a, n.it)>> \o NodeEvents(nodes, j + 1, anch, done \cup {n.id})
+\* `done` = Serializer.serialized_nodes when the document starts (empty after a reset)
+DocEvents(root, nodes, anch, done, opts) ==
+  LET ds == [Ev("DS", 0, "-") EXCEPT !.tags = opts.tags, !.ver = opts.ver]
+      ra == IF Has(anch, root) THEN anch[root] ELSE 0
+  IN  IF root \in done THEN <<ds, Ev("AL", ra, "-"), Ev("DE", 0, "-")>>
+      ELSE IF Len(nodes) = 1 /\ nodes[1].it = "S" THEN <<ds, Ev("SC", ra, "S"), Ev("DE", 0, "-")>>        \* scalar root
+      ELSE <<ds, Ev("SQS", ra, "-")>> \o NodeEvents(nodes, 1, anch, done \cup {root}) \o <<Ev("SQE", 0, "-"), Ev("DE", 0, "-")>>
 \* what a caller of emit() passes for a stream of values: well-formed events, anchors numbered per document
 RECURSIVE UserEvents(_, _)
 UserEvents(vals, j) ==
   IF j > Len(vals) THEN <<>>
   ELSE LET v == Val(vals[j])
-           ns == NodesOf(v.items)
-       IN  DocEvents(ns, AnchorPass(ns, 1, EmptyDict, 0).anch, [tags |-> v.tags, ver |-> v.ver]) \o UserEvents(vals, j + 1)
+           ns == NodesOf(ToString(j), v.items)
+           root == RootId(ToString(j))
+       IN  DocEvents(root, ns, AnchorDoc(root, ns, EmptyDict, 0).anch, {}, [tags |-> v.tags, ver |-> v.ver]) \o UserEvents(vals, j + 1)
 
 \* Emitter.need_more_events / need_events (emitter.py:120-148)
 RECURSIVE NeedScan(_, _, _, _)
@@ -388,11 +408,17 @@ EmitOne(o, g, e) ==
     IN  [tp |-> w.r, g |-> w.g, chunk |-> <<"DS", e.ver, e.tags>>]
   ELSE IF e.k \in {"SC", "SQS"} THEN
     [tp |-> o.tp, g |-> g,
-     chunk |-> <<e.k, e.a, IF e.t = "ve" THEN (IF Has(Deref(o.tp, g), EPrefix) THEN "short" ELSE "verbatim") ELSE e.t>>]
+     chunk |-> <<e.k, e.a, IF e.t = "ve" THEN (IF Has(Deref(o.tp, g), EPrefix) THEN "short" ELSE "verbatim")
+                           ELSE IF e.t = "nu" THEN (IF o.au THEN "raw" ELSE "escaped") ELSE e.t>>]
   ELSE IF e.k = "STS" THEN [tp |-> o.tp, g |-> g, chunk |-> <<>>]
   ELSE IF e.k = "STE" THEN [tp |-> o.tp, g |-> g, chunk |-> <<>>]
   ELSE [tp |-> o.tp, g |-> g, chunk |-> <<e.k, e.a>>]
 
+\* SafeRepresenter has no representer for arbitrary objects; Representer (unsafe) represents them by reduction
+ReprOutcome(cls, it) ==
+  CASE it = "RE" -> IF cls = "unsafe" THEN "TypeError" ELSE "RepresenterError"
+    [] it \in UserValItems \cup {"ve"} -> IF cls = "safe" THEN "RepresenterError" ELSE "ok"
+    [] OTHER -> "ok"
 ValIsCallback(cls, it) == cls = "user" /\ it \in UserValItems
 Streams(o) == o.io = "file"
 
@@ -422,26 +448,31 @@ DStep(o, g, inj) ==
     [] o.pc = "nextval" ->
          IF o.d = Len(o.vals) THEN same([o EXCEPT !.pc = "close"])
          ELSE IF lvl = 3 THEN same([o EXCEPT !.d = @ + 1, !.ri = 0, !.rnodes = <<>>, !.pc = "represent"])
-         ELSE same([o EXCEPT !.d = @ + 1, !.rnodes = NodesOf(Val(o.vals[o.d + 1]).items), !.pc = "serialize"])
+         ELSE same([o EXCEPT !.d = @ + 1, !.rnodes = NodesOf(o.vals[o.d + 1], Val(o.vals[o.d + 1]).items), !.pc = "serialize"])
     [] o.pc = "represent" ->           \* BaseRepresenter.represent_data for the next child (representer.py:33-63)
          LET items == Val(o.vals[o.d]).items IN
          IF o.ri = Len(items) THEN same([o EXCEPT !.pc = "serialize"])
          ELSE LET it == items[o.ri + 1]
                   o1 == [o EXCEPT !.ri = @ + 1]
               IN  IF ValIsCallback(o.cls, it) /\ inj THEN same(Raise([o1 EXCEPT !.injected = o.ninv + 1], "INJ"))
-                  ELSE IF it = "RE" \/ (it \in UserValItems /\ o.cls # "user") THEN same(Raise(o1, "RepresenterError"))
+                  ELSE IF ReprOutcome(o.cls, it) # "ok" THEN same(Raise(o1, ReprOutcome(o.cls, it)))
                   ELSE same([o1 EXCEPT !.ninv = IF ValIsCallback(o.cls, it) THEN @ + 1 ELSE @,
                                        !.aliasKey = ObjOf(it),
                                        !.represented = IF Shared(it) THEN @ \cup {it} ELSE @,
                                        !.keeper = IF Shared(it) /\ it \notin o.represented THEN Append(@, it) ELSE @,
-                                       !.rnodes = Append(@, [it |-> it, obj |-> ObjOf(it)])])
+                                       !.rnodes = Append(@, [it |-> IF o.cls = "unsafe" /\ it \in UserValItems \cup {"ve"} THEN "s" ELSE it,
+                                                             obj |-> ObjOf(it), id |-> NodeIdOf(ToString(o.d), ObjOf(it), o.ri + 1)])])
     [] o.pc = "serialize" ->           \* Serializer.serialize (serializer.py:46-58): anchor pass, then the events
-         LET ap == AnchorPass(o.rnodes, 1, o.sanchors, o.lastAnchorId) IN
+         LET root == RootId(IF lvl = 3 THEN ToString(o.d) ELSE o.vals[o.d])
+             ap == AnchorDoc(root, o.rnodes, o.sanchors, o.lastAnchorId) IN
          same([o EXCEPT !.sanchors = ap.anch, !.lastAnchorId = ap.lastId,
-                        !.serialized = {o.rnodes[j].obj : j \in DOMAIN o.rnodes} \ {"-"},
-                        !.pend = DocEvents(o.rnodes, ap.anch, DocOpts(o, Val(o.vals[o.d]))),
+                        !.serialized = @ \cup {o.rnodes[j].id : j \in DOMAIN o.rnodes} \cup {root},
+                        !.pend = DocEvents(root, o.rnodes, ap.anch, o.serialized, DocOpts(o, Val(o.vals[o.d]))),
                         !.pc = "emit", !.ret = "sreset"])
     [] o.pc = "sreset" ->              \* serializer.py:56-58
+         IF Mutation = "keep_serialized" /\ o.lastAnchorId = 0      \* wrong: "nothing to reset when no anchor was generated"
+         THEN same([o EXCEPT !.pc = IF lvl = 3 THEN "rreset" ELSE "nextval"])
+         ELSE
          same([o EXCEPT !.serialized = {}, !.sanchors = EmptyDict,
                         !.lastAnchorId = IF Mutation = "keep_anchor_id" THEN @ ELSE 0,
                         !.pc = IF lvl = 3 THEN "rreset" ELSE "nextval"])
@@ -507,7 +538,7 @@ Stopped(o) == o.pc = "done" \/ o.yielded
 RECURSIVE Run(_, _, _)
 Run(o, g, faultAt) ==
   IF Stopped(o) THEN [o |-> o, g |-> g]
-  ELSE LET r == Step(o, g, IsInvocation(o) /\ o.ninv + 1 = faultAt) IN Run(r.o, r.g, faultAt)
+  ELSE LET r == Step(o, g, faultAt # 0 /\ o.ninv + 1 = faultAt /\ IsInvocation(o)) IN Run(r.o, r.g, faultAt)
 \* iterate a generator object to the end, keeping everything it delivers
 RECURSIVE Iterate(_, _)
 Iterate(o, g) == LET r == Run([o EXCEPT !.yielded = FALSE], g, 0)
@@ -521,18 +552,16 @@ Abandon(o) == IF o.pc \in {"unstarted", "done"} THEN [o EXCEPT !.pc = "done", !.
 (* API steps.  step = [t, op, cls, be, io, arg, g, fault]                  *)
 (***************************************************************************)
 Seqs(S, n) == UNION {[1 .. m -> S] : m \in 1 .. n}
-ImplOk(docs, impl) == impl => (~Doc(docs[1]).yaml /\ ~Doc(docs[1]).tag)
+\* impl: the first document is written without "---" when it has no directives (an implicit document)
 CONSTANT Impls
 Sources(op) == {[docs |-> ds, impl |-> im] : ds \in Seqs(Docs, IF IsSingle(op) THEN MaxSingle ELSE MaxStream), im \in Impls}
 ValArgs(op) == Seqs(Vals, IF IsSingle(op) THEN MaxSingle ELSE MaxStream)
 LoaderClasses == Classes
-DumperClasses == Classes \ {"full", "unsafe"}        \* BaseDumper, SafeDumper, Dumper ("unsafe" is the same object side), user subclass
-DClasses == (Classes \cap {"base", "safe", "user"}) \cup (IF "unsafe" \in Classes THEN {"unsafe"} ELSE {})
+DClasses == Classes \cap {"safe", "unsafe", "user"}     \* SafeDumper, Dumper, a user subclass of SafeDumper (C variants by Backends)
 
 NewObj(s) == IF IsLoadOp(s.op) THEN NewLoader(s.op, s.cls, s.be, s.arg, s.io, IF s.t = "call" THEN "call" ELSE "gen")
              ELSE NewDumper(s.op, s.cls, s.be, s.arg, s.io)
 MkStep(t, op, cls, be, io, arg, gi) == [t |-> t, op |-> op, cls |-> cls, be |-> be, io |-> io, arg |-> arg, g |-> gi, fault |-> 0]
-InitStep == MkStep("init", "-", "-", "-", "-", <<>>, 0)
 
 \* what the caller of a complete call gets
 CallResult(o) ==
@@ -556,8 +585,9 @@ FreshNext(s, k) == LET f == FreshObs(s)
 PartArg(s, j) == IF IsLoadOp(s.op) THEN [docs |-> <<s.arg.docs[j]>>, impl |-> (j = 1 /\ s.arg.impl)] ELSE <<s.arg[j]>>
 NParts(s) == IF IsLoadOp(s.op) THEN Len(s.arg.docs) ELSE Len(s.arg)
 \* per-call options of the dumpers come from the first value; a part keeps the options of the whole call
-SameOpts(s, j) == IsLoadOp(s.op) \/ s.op = "emit"
-                  \/ (Val(s.arg[j]).tags = Val(s.arg[1]).tags /\ Val(s.arg[j]).ver = Val(s.arg[1]).ver)
+SameOpts(s, j) == \/ IsLoadOp(s.op)
+                  \/ /\ Val(s.arg[j]).au = Val(s.arg[1]).au
+                     /\ s.op = "emit" \/ (Val(s.arg[j]).tags = Val(s.arg[1]).tags /\ Val(s.arg[j]).ver = Val(s.arg[1]).ver)
 WholeObs(s) == IF IsLoadOp(s.op) THEN FreshObs(s) ELSE ObsResult(Run(NewObj([s EXCEPT !.io = "file"]), Globals0, 0).o)
 PartObs(s, j) == WholeObs([s EXCEPT !.arg = PartArg(s, j)])
 
